@@ -6,7 +6,6 @@
 From BU Require Import Lib.Bytes Lib.PolyMod Gen.Xbchutil Address.Bits.
 From Coq Require Import ZifyBool ZifyN ZifyNat.
 
-Definition lenN {A} (l : list A) : N := N.of_nat (length l).
 
 (* big-endian value of a digit string in base 2^w *)
 Definition val (w : N) (l : list N) : N := fold_left (fun a x => a * 2 ^ w + x) l 0.
@@ -37,6 +36,12 @@ Proof. unfold val at 1. cbn [fold_left]. rewrite val_acc. lia. Qed.
 
 Lemma val_app w a b : val w (a ++ b) = val w a * 2 ^ (w * lenN b) + val w b.
 Proof. unfold val at 1. rewrite fold_left_app. fold (val w a). apply val_acc. Qed.
+
+Lemma val_snoc w l x : val w (l ++ [x]) = val w l * 2 ^ w + x.
+Proof. unfold val. rewrite fold_left_app. reflexivity. Qed.
+
+Lemma lenN_snoc {A} (l : list A) x : lenN (l ++ [x]) = lenN l + 1.
+Proof. unfold lenN. rewrite app_length. cbn [length]. lia. Qed.
 
 Lemma val_bound w l : Forall (fun x => x < 2 ^ w) l -> val w l < 2 ^ (w * lenN l).
 Proof.
@@ -188,7 +193,8 @@ Proof.
     rewrite ?(digit_arith _ _ 5) by reflexivity;
     unfold val, lenN; cbn [fold_left length];
     repeat match goal with |- context [2 ^ ?k] => let x := eval vm_compute in (2 ^ k) in change (2 ^ k) with x end;
-    (repeat split; [lia | lia | repeat constructor; apply N.mod_lt; lia | lia | subst a1; lia]).
+    (assert (E : a1 = (acc mod 16) * 256 + v) by (subst a1; lia)); clearbody a1;
+    (repeat split; try lia; repeat constructor; apply N.mod_lt; lia).
 Qed.
 
 Lemma step58 acc bits v : bits < 8 -> acc < 4096 -> v < 2 ^ 5 ->
@@ -208,5 +214,174 @@ Proof.
     rewrite ?(digit_arith _ _ 8) by reflexivity;
     unfold val, lenN; cbn [fold_left length];
     repeat match goal with |- context [2 ^ ?k] => let x := eval vm_compute in (2 ^ k) in change (2 ^ k) with x end;
-    (repeat split; [lia | lia | repeat constructor; apply N.mod_lt; lia | lia | subst a1; lia]).
+    (assert (E : a1 = (acc mod 128) * 32 + v) by (subst a1; lia)); clearbody a1;
+    (repeat split; try lia; repeat constructor; apply N.mod_lt; lia).
+Qed.
+
+(* ---------- convertBits as called by address.go ---------- *)
+Lemma convert_bits_85 d :
+  convert_bits d 8 5 true =
+  (do (acc, bits, ret) <- cb_loop d 0 0 8 5 31 4095 ;;
+   Ok (map (fun x => x mod 256)
+           (if 0 <? bits then ret ++ [N.land (w64 (N.shiftl acc (5 - bits))) 31] else ret))).
+Proof. reflexivity. Qed.
+
+Lemma convert_bits_58 p :
+  convert_bits p 5 8 false =
+  (do (acc, bits, ret) <- cb_loop p 0 0 5 8 255 4095 ;;
+   if (5 <=? bits) || negb (N.land (w64 (N.shiftl acc (8 - bits))) 255 =? 0) then Err 1
+   else Ok (map (fun x => x mod 256) ret)).
+Proof. reflexivity. Qed.
+
+Lemma Bytes_lt_pow8 d : Bytes d -> Forall (fun x => x < 2 ^ 8) d.
+Proof. exact (fun H => H). Qed.
+
+Lemma last85 acc b : acc < 4096 -> 0 < b -> b < 5 ->
+  N.land (w64 (N.shiftl acc (5 - b))) 31 = (acc mod 2 ^ b) * 2 ^ (5 - b).
+Proof.
+  intros Ha H0 Hb. unfold w64. rewrite N.shiftl_mul_pow2.
+  rewrite (land_mask _ 5) by reflexivity.
+  assert (H : b = 1 \/ b = 2 \/ b = 3 \/ b = 4) by lia.
+  destruct H as [->|[->|[->| ->]]];
+    repeat match goal with |- context [2 ^ ?k] => let x := eval vm_compute in (2 ^ k) in change (2 ^ k) with x end;
+    lia.
+Qed.
+
+Lemma last58 acc b : acc < 4096 -> b < 8 ->
+  (N.land (w64 (N.shiftl acc (8 - b))) 255 =? 0) = (acc mod 2 ^ b =? 0).
+Proof.
+  intros Ha Hb. unfold w64. rewrite N.shiftl_mul_pow2.
+  rewrite (land_mask _ 8) by reflexivity.
+  assert (H : b = 0 \/ b = 1 \/ b = 2 \/ b = 3 \/ b = 4 \/ b = 5 \/ b = 6 \/ b = 7) by lia.
+  destruct H as [->|[->|[->|[->|[->|[->|[->| ->]]]]]]];
+    repeat match goal with |- context [2 ^ ?k] => let x := eval vm_compute in (2 ^ k) in change (2 ^ k) with x end;
+    lia.
+Qed.
+
+(* padded 8 -> 5: the symbols are the digits of (value of the bytes) * 2^pd, pd < 5 padding bits *)
+Theorem pack_spec d : Bytes d ->
+  exists p pd, convert_bits d 8 5 true = Ok p /\ Forall (fun x => x < 32) p /\ pd < 5 /\
+               5 * lenN p = 8 * lenN d + pd /\ val 5 p = val 8 d * 2 ^ pd.
+Proof.
+  intros Hd.
+  destruct (loop_spec 8 5 31 4095 4096 step85 d 0 0 (Bytes_lt_pow8 d Hd)) as
+    (acc' & bits' & out & Hl & Hb & Ha & HF & Hlen & He); [lia | lia |].
+  rewrite convert_bits_85, Hl. cbn [rbind].
+  change (0 mod 2 ^ 0) with 0 in He. rewrite N.mul_0_l, N.add_0_l in He.
+  change (2 ^ 5) with 32 in HF.
+  destruct (N.ltb_spec 0 bits') as [Hpos|Hz].
+  - exists (out ++ [(acc' mod 2 ^ bits') * 2 ^ (5 - bits')]), (5 - bits').
+    rewrite last85 by assumption.
+    assert (Hlast : (acc' mod 2 ^ bits') * 2 ^ (5 - bits') < 32).
+    { assert (H : bits' = 1 \/ bits' = 2 \/ bits' = 3 \/ bits' = 4) by lia.
+      destruct H as [->|[->|[->| ->]]];
+        repeat match goal with |- context [2 ^ ?k] => let x := eval vm_compute in (2 ^ k) in change (2 ^ k) with x end; lia. }
+    assert (HF' : Forall (fun x => x < 32) (out ++ [(acc' mod 2 ^ bits') * 2 ^ (5 - bits')])).
+    { apply Forall_app. split; [exact HF|]. constructor; [exact Hlast|constructor]. }
+    split; [|split; [exact HF'|split; [lia|split]]].
+    + f_equal. apply (map_mod256_small _ 5); [lia|exact HF'].
+    + rewrite lenN_snoc. clear - Hlen Hb Hpos. lia.
+    + rewrite val_snoc. rewrite He.
+      assert (Hp : 2 ^ 5 = 2 ^ bits' * 2 ^ (5 - bits')) by (rewrite <- N.pow_add_r; f_equal; lia).
+      rewrite Hp. clear. lia.
+  - assert (bits' = 0) by lia. subst bits'. exists out, 0.
+    split; [|split; [exact HF|split; [lia|split]]].
+    + f_equal. apply (map_mod256_small _ 5); [lia|exact HF].
+    + clear - Hlen. lia.
+    + rewrite He. change (2 ^ 0) with 1. rewrite N.mod_1_r. lia.
+Qed.
+
+(* strict 5 -> 8: accepted exactly when fewer than 5 leftover bits remain and they are all zero *)
+Theorem unpack_spec p : Forall (fun x => x < 32) p ->
+  exists out r X, r < 8 /\ X < 2 ^ r /\ Bytes out /\ r + 8 * lenN out = 5 * lenN p /\
+    val 5 p = val 8 out * 2 ^ r + X /\
+    convert_bits p 5 8 false = (if (5 <=? r) || negb (X =? 0) then Err 1 else Ok out).
+Proof.
+  intros Hp.
+  destruct (loop_spec 5 8 255 4095 4096 step58 p 0 0 Hp) as
+    (acc' & bits' & out & Hl & Hb & Ha & HF & Hlen & He); [lia | lia |].
+  exists out, bits', (acc' mod 2 ^ bits').
+  change (0 mod 2 ^ 0) with 0 in He. rewrite N.mul_0_l, N.add_0_l in He.
+  rewrite convert_bits_58, Hl. cbn [rbind]. rewrite last58 by assumption.
+  rewrite (map_mod256_small out 8) by (auto; lia).
+  repeat split; auto.
+  all: try (apply N.mod_lt; apply N.pow_nonzero; lia).
+  all: try (clear - Hlen; lia).
+Qed.
+
+Lemma convert_bits_58_no_panic p k : Forall (fun x => x < 32) p -> convert_bits p 5 8 false <> Panic k.
+Proof.
+  intros Hp. destruct (unpack_spec p Hp) as (out & r & X & _ & _ & _ & _ & _ & E).
+  rewrite E. destruct ((5 <=? r) || negb (X =? 0)); discriminate.
+Qed.
+
+Lemma convert_bits_58_err p e : Forall (fun x => x < 32) p -> convert_bits p 5 8 false = Err e -> e = 1.
+Proof.
+  intros Hp. destruct (unpack_spec p Hp) as (out & r & X & _ & _ & _ & _ & _ & E).
+  rewrite E. destruct ((5 <=? r) || negb (X =? 0)); congruence.
+Qed.
+
+(* what strict 5 -> 8 returns, in value form *)
+Theorem unpack_ok p d : Forall (fun x => x < 32) p -> convert_bits p 5 8 false = Ok d ->
+  Bytes d /\ exists r, r < 5 /\ r + 8 * lenN d = 5 * lenN p /\ val 5 p = val 8 d * 2 ^ r.
+Proof.
+  intros Hp H. destruct (unpack_spec p Hp) as (out & r & X & Hr & HX & Hout & Hlen & Hv & E).
+  rewrite E in H. destruct (N.leb_spec 5 r) as [|Hr5]; [discriminate|].
+  destruct (N.eqb_spec X 0) as [HX0|]; [|discriminate]. cbn in H. injection H as <-.
+  split; [exact Hout|]. exists r. subst X. repeat split; auto. lia.
+Qed.
+
+(* and conversely anything of that shape is accepted *)
+Theorem unpack_accepts p d r : Forall (fun x => x < 32) p -> Bytes d -> r < 5 ->
+  r + 8 * lenN d = 5 * lenN p -> val 5 p = val 8 d * 2 ^ r -> convert_bits p 5 8 false = Ok d.
+Proof.
+  intros Hp Hd Hr Hlen Hv.
+  destruct (unpack_spec p Hp) as (out & r' & X & Hr' & HX & Hout & Hlen' & Hv' & E).
+  assert (r' = r /\ lenN out = lenN d) as [-> El] by (clear - Hlen Hlen' Hr Hr'; lia).
+  pose proof (pow2_pos r) as Hpos.
+  assert (X = 0 /\ val 8 out = val 8 d) as [-> Ev].
+  { rewrite Hv in Hv'. clear - Hv' HX Hpos. set (P := 2 ^ r) in *.
+    assert (Ev : val 8 out = val 8 d).
+    { rewrite (N.div_unique (val 8 d * P) P (val 8 out) X HX) by lia. rewrite N.div_mul; lia. }
+    split; [|exact Ev]. rewrite Ev in Hv'. lia. }
+  rewrite E. destruct (N.leb_spec 5 r); [lia|]. cbn. f_equal.
+  apply (val_inj 8); auto. unfold lenN in El. lia.
+Qed.
+
+(* round trip: strict 5 -> 8 inverts padded 8 -> 5 *)
+Theorem unpack_pack d : Bytes d ->
+  exists p, convert_bits d 8 5 true = Ok p /\ Forall (fun x => x < 32) p /\
+            5 * lenN p < 8 * lenN d + 5 /\ 8 * lenN d <= 5 * lenN p /\
+            convert_bits p 5 8 false = Ok d.
+Proof.
+  intros Hd. destruct (pack_spec d Hd) as (p & pd & Hc & Hp & Hpd & Hlen & Hv).
+  exists p. repeat split; auto; try lia.
+  apply (unpack_accepts p d pd); auto. lia.
+Qed.
+
+(* canonicity: an accepted symbol string is the padded regrouping of the bytes it yields *)
+Theorem pack_unpack p d : Forall (fun x => x < 32) p -> convert_bits p 5 8 false = Ok d ->
+  Bytes d /\ convert_bits d 8 5 true = Ok p.
+Proof.
+  intros Hp H. destruct (unpack_ok p d Hp H) as (Hd & r & Hr & Hlen & Hv).
+  split; [exact Hd|].
+  destruct (pack_spec d Hd) as (p' & pd & Hc & Hp' & Hpd & Hlen' & Hv').
+  rewrite Hc. f_equal.
+  assert (pd = r /\ lenN p' = lenN p) as [-> El] by (clear - Hlen Hlen' Hr Hpd; lia).
+  apply (val_inj 5); auto.
+  - unfold lenN in El. lia.
+  - congruence.
+Qed.
+
+(* lengths: n bytes <-> ceil(8n/5) symbols *)
+Lemma pack_length d p : Bytes d -> convert_bits d 8 5 true = Ok p -> lenN p = (8 * lenN d + 4) / 5.
+Proof.
+  intros Hd H. destruct (pack_spec d Hd) as (p' & pd & Hc & _ & Hpd & Hlen & _).
+  rewrite Hc in H. injection H as <-. clear - Hpd Hlen. lia.
+Qed.
+
+Lemma unpack_length p d : Forall (fun x => x < 32) p -> convert_bits p 5 8 false = Ok d ->
+  lenN d = 5 * lenN p / 8 /\ (5 * lenN p) mod 8 < 5.
+Proof.
+  intros Hp H. destruct (unpack_ok p d Hp H) as (_ & r & Hr & Hlen & _). clear - Hr Hlen. lia.
 Qed.
